@@ -11,7 +11,7 @@ use crate::layouts::*;
 use crate::refs::numpad_alias;
 use crate::report::*;
 use crate::rng::Rng;
-use pc_keyboard::{HandleControl, KeyCode, KeyEvent, KeyState, Keyboard, ScancodeSet2};
+use pc_keyboard::{DecodedKey, HandleControl, KeyCode, KeyEvent, KeyState, Keyboard, KeyboardLayout, Modifiers, ScancodeSet2};
 
 /// What a property accepts as the decoded key of one press.
 pub enum Acc {
@@ -62,16 +62,114 @@ pub fn history(rng: &mut Rng, focus: &[KeyCode], all: &[KeyCode], len: usize) ->
     ops
 }
 
+/// One press judged by the property's predicate: None = accepted (or not constrained), Some(what was required).
+#[allow(clippy::too_many_arguments)]
+fn judge(cube: &Cube, acc: &dyn Fn(usize, usize, u16, usize) -> Acc, li: usize, k: KeyCode, ki: usize, m: u16, mode: usize, got: u32, judged: &mut u64) -> Option<String> {
+    match acc(li, ki, m, mode) {
+        Acc::Any => None,
+        Acc::OneOf(v) => {
+            *judged += 1;
+            if v.contains(&got) {
+                None
+            } else {
+                Some(v.iter().map(|e| cube.show(*e)).collect::<Vec<_>>().join("|"))
+            }
+        }
+        Acc::RawSelfOrAlias => {
+            *judged += 1;
+            let own = 0x8000_0000 | kidx(k) as u32;
+            let alias_ok = m & B_NUMLOCK == 0 && numpad_alias(k).map(|a| got == (0x8000_0000 | kidx(a) as u32)).unwrap_or(false);
+            if !enc_is_raw(got) || got == own || alias_ok {
+                None
+            } else {
+                Some(format!("Raw({:?}) or its NumLock-off alias", k))
+            }
+        }
+    }
+}
+
+/// What one press of the focus key returned in a streamed "ABA" history, with the decoder's record before and after it.
+pub struct BigObs {
+    pub step: &'static str,
+    pub pre: Modifiers,
+    pub mods: u16,
+    pub mode: HandleControl,
+    pub got: Option<DecodedKey>,
+}
+
+/// The ABA history with `n` changes, streamed (n may be 2^32): key, n-1 events of `tog` (alternating Down/Up, or Down only
+/// for a lock key), `last` Down, key, n calls of set_ctrl_handling, key, set_ctrl_handling(Ignore), key.
+pub fn big_aba<L: KeyboardLayout>(layout: L, key: KeyCode, tog: KeyCode, alternate: bool, last: KeyCode, n: u64) -> Vec<BigObs> {
+    let mut kb = Keyboard::new(ScancodeSet2::new(), layout, HandleControl::MapLettersToUnicode);
+    let mut out = Vec::new();
+    fn press<L: KeyboardLayout>(kb: &mut Keyboard<L, ScancodeSet2>, key: KeyCode, step: &'static str, out: &mut Vec<BigObs>) {
+        let pre = kb.get_modifiers().clone();
+        let got = kb.process_keyevent(KeyEvent::new(key, KeyState::Down));
+        out.push(BigObs { step, pre, mods: bits_from_mods(kb.get_modifiers()), mode: kb.get_ctrl_handling(), got });
+    }
+    press(&mut kb, key, "first press", &mut out);
+    for i in 0..n - 1 {
+        let st = if alternate && i % 2 == 1 { KeyState::Up } else { KeyState::Down };
+        std::hint::black_box(kb.process_keyevent(KeyEvent::new(tog, st)));
+    }
+    kb.process_keyevent(KeyEvent::new(last, KeyState::Down));
+    press(&mut kb, key, "after n modifier events", &mut out);
+    for i in 0..n {
+        kb.set_ctrl_handling(MODES[(i % 2) as usize]);
+        std::hint::black_box(&mut kb);
+    }
+    press(&mut kb, key, "after n set_ctrl_handling calls", &mut out);
+    kb.set_ctrl_handling(MODES[1]);
+    press(&mut kb, key, "after one more mode change", &mut out);
+    out
+}
+
+pub const BIG_COMBOS: [(KeyCode, bool, KeyCode); 4] = [
+    (KeyCode::RShift, true, KeyCode::LShift),
+    (KeyCode::RControl, true, KeyCode::LControl),
+    (KeyCode::NumpadLock, false, KeyCode::LShift),
+    (KeyCode::CapsLock, false, KeyCode::RAltGr),
+];
+
 pub fn through_decoder(prop: &str, rep: &mut Report, cube: &Cube, focus: &[KeyCode], acc: &dyn Fn(usize, usize, u16, usize) -> Acc) {
     let (n_hist, len) = if rep.thorough() { (4000usize, 400usize) } else { (120, 250) };
     let mut presses = 0u64;
     let mut judged = 0u64;
     let mut repeats = 0u64;
     let all: Vec<KeyCode> = cube.keys.clone();
-    for li in 0..10 {
-        for h in 0..n_hist {
+    // "ABA" histories: a key, then exactly 2^8 / 2^16 modifier (or mode) changes that end in a different state, then the
+    // same key again – whatever stamps or counts events with a narrow integer sees the old value again
+    let mut aba: Vec<Vec<HOp>> = Vec::new();
+    for k in focus.iter().take(3) {
+        for period in [256usize, 65_536] {
+            // (changes, final change): `period` events that are also `period` real state changes, ending in a state that
+            // differs from the one of the first press and in which the property still constrains the key
+            let alt = |key: KeyCode, n: usize| -> Vec<HOp> { (0..n).map(|i| HOp::Ev(key, if i % 2 == 0 { KeyState::Down } else { KeyState::Up })).collect() };
+            let rep = |key: KeyCode, n: usize| -> Vec<HOp> { (0..n).map(|_| HOp::Ev(key, KeyState::Down)).collect() };
+            let combos: [(Vec<HOp>, KeyCode); 4] = [
+                (alt(KeyCode::RShift, period - 1), KeyCode::LShift),     // ends {lshift, rshift}: shifted level
+                (alt(KeyCode::RControl, period - 1), KeyCode::LControl), // ends {lctrl, rctrl}: Ctrl held
+                (rep(KeyCode::NumpadLock, period - 1), KeyCode::LShift), // NumLock toggled an odd number of times
+                (rep(KeyCode::CapsLock, period - 1), KeyCode::RAltGr),   // CapsLock on, AltGr held
+            ];
+            for (changes, last) in combos {
+                let mut v = vec![HOp::Ev(*k, KeyState::Down)];
+                v.extend(changes);
+                v.push(HOp::Ev(last, KeyState::Down));
+                v.push(HOp::Ev(*k, KeyState::Down));
+                v.extend((0..period).map(|i| HOp::Mode(i % 2)));
+                v.push(HOp::Ev(*k, KeyState::Down));
+                v.push(HOp::Mode(1));
+                v.push(HOp::Ev(*k, KeyState::Down));
+                aba.push(v);
+            }
+        }
+    }
+    let n_aba = aba.len();
+    for li in 0..cube.n_layouts {
+        for h in 0..(n_hist + n_aba) {
             let mut rng = Rng::fork(rep.seed, 0x7470_0000 + ((li as u64) << 24) + h as u64);
-            let ops = history(&mut rng, focus, &all, if h < 2 { len * 40 } else { len });
+            let ops = if h >= n_hist { aba[h - n_hist].clone() } else { history(&mut rng, focus, &all, if h < 2 { len * 40 } else { len }) };
             let r = guarded(|| {
                 let mut kb = Keyboard::new(ScancodeSet2::new(), dyn_layout(li, 0), if h % 2 == 0 { HandleControl::MapLettersToUnicode } else { HandleControl::Ignore });
                 let mut bad: Option<(usize, u16, usize, u32, String)> = None;
@@ -98,27 +196,7 @@ pub fn through_decoder(prop: &str, rep: &mut Report, cube: &Cube, focus: &[KeyCo
                             let m = bits_from_mods(kb.get_modifiers());
                             let mode = mode_idx(kb.get_ctrl_handling());
                             let got = out.map(dk_enc).unwrap_or(ENC_NONE);
-                            let verdict = match acc(li, ki, m, mode) {
-                                Acc::Any => None,
-                                Acc::OneOf(v) => {
-                                    j += 1;
-                                    if v.contains(&got) {
-                                        None
-                                    } else {
-                                        Some(v.iter().map(|e| cube.show(*e)).collect::<Vec<_>>().join("|"))
-                                    }
-                                }
-                                Acc::RawSelfOrAlias => {
-                                    j += 1;
-                                    let own = 0x8000_0000 | kidx(*k) as u32;
-                                    let alias_ok = m & B_NUMLOCK == 0 && numpad_alias(*k).map(|a| got == (0x8000_0000 | kidx(a) as u32)).unwrap_or(false);
-                                    if !enc_is_raw(got) || got == own || alias_ok {
-                                        None
-                                    } else {
-                                        Some(format!("Raw({:?}) or its NumLock-off alias", k))
-                                    }
-                                }
-                            };
+                            let verdict = judge(cube, acc, li, *k, ki, m, mode, got, &mut j);
                             if let Some(want) = verdict {
                                 bad = Some((i, m, mode, got, want));
                                 break;
@@ -141,10 +219,10 @@ pub fn through_decoder(prop: &str, rep: &mut Report, cube: &Cube, focus: &[KeyCo
                         let gs = if got == ENC_NONE { "None".to_string() } else { cube.show(got) };
                         let tail: Vec<String> = ops[i.saturating_sub(8)..=i].iter().map(|o| o.show()).collect();
                         rep.violate(
-                            format!("{}|via-decoder|{}|key={:?}|want={}|got={}", prop, LAYOUT_NAMES[li], k, want, gs),
+                            format!("{}|via-decoder|{}|key={:?}|want={}|got={}", prop, layout_name(li), k, want, gs),
                             format!(
                                 "{} through Keyboard::process_keyevent: after … {} the press of {:?} with reported modifiers {} (Ctrl mode {}) typed {}; the property requires {}",
-                                LAYOUT_NAMES[li],
+                                layout_name(li),
                                 tail.join(", "),
                                 k,
                                 mods_str(m),
@@ -154,7 +232,7 @@ pub fn through_decoder(prop: &str, rep: &mut Report, cube: &Cube, focus: &[KeyCo
                             ),
                             J::obj()
                                 .with("kind", J::s("events"))
-                                .with("layout", J::s(LAYOUT_NAMES[li]))
+                                .with("layout", J::s(layout_name(li)))
                                 .with("initial_mode", J::s(if h % 2 == 0 { "Map" } else { "Ignore" }))
                                 .with("ops", J::strs(ops[..=i].iter().map(|o| o.show())))
                                 .with("expected_last", J::s(want))
@@ -164,6 +242,42 @@ pub fn through_decoder(prop: &str, rep: &mut Report, cube: &Cube, focus: &[KeyCo
                 }
                 // a panic inside the decoder or a layout is C08's matter, not this property's
                 Err(_) => rep.count("via_decoder_histories_aborted_by_a_panic", 1),
+            }
+        }
+    }
+    // thorough: the same ABA shape with exactly 2^32 changes (streamed; one thread per combination, judged afterwards)
+    if rep.thorough() {
+        let n: u64 = 1 << 32;
+        let key = focus[(rep.seed % focus.len() as u64) as usize];
+        let mut handles = Vec::new();
+        for (c, (tog, alt, last)) in BIG_COMBOS.iter().enumerate() {
+            let li = ((rep.seed as usize) + c * 3) % cube.n_layouts;
+            let (tog, alt, last) = (*tog, *alt, *last);
+            handles.push((li, c, std::thread::spawn(move || guarded(|| big_aba(dyn_layout(li, 0), key, tog, alt, last, n)))));
+        }
+        for (li, c, h) in handles {
+            match h.join() {
+                Ok(Ok(obs)) => {
+                    rep.count("aba_2_32_histories", 1);
+                    rep.count("aba_2_32_events", 2 * n);
+                    let Some(ki) = cube.key_index(key) else { continue };
+                    for o in obs {
+                        presses += 1;
+                        let got = o.got.map(dk_enc).unwrap_or(ENC_NONE);
+                        if let Some(want) = judge(cube, acc, li, key, ki, o.mods, mode_idx(o.mode), got, &mut judged) {
+                            let gs = if got == ENC_NONE { "None".to_string() } else { cube.show(got) };
+                            rep.violate(
+                                format!("{}|via-decoder|{}|key={:?}|want={}|got={}", prop, layout_name(li), key, want, gs),
+                                format!(
+                                    "{} through Keyboard::process_keyevent, 2^32-change history #{} ({:?} … then {:?}), press '{}': {:?} with reported modifiers {} (Ctrl mode {}) typed {}; the property requires {}",
+                                    layout_name(li), c, BIG_COMBOS[c].0, BIG_COMBOS[c].2, o.step, key, mods_str(o.mods), mode_str(o.mode), gs, want
+                                ),
+                                J::obj().with("kind", J::s("aba-2^32")).with("layout", J::s(layout_name(li))).with("combo", J::u(c as u64)).with("step", J::s(o.step)),
+                            );
+                        }
+                    }
+                }
+                _ => rep.count("via_decoder_histories_aborted_by_a_panic", 1),
             }
         }
     }
